@@ -3,16 +3,16 @@
 #ifndef VF_LIBM_CONTRACTS_H
 #define VF_LIBM_CONTRACTS_H
 static inline uint64_t vf_dbits(double d) { union { double d; uint64_t u; } p; p.d = d; return p.u; }
-double __CPROVER_uninterpreted_cos(double);
-double __CPROVER_uninterpreted_sin(double);
+uint64_t __CPROVER_uninterpreted_cos(uint64_t);   /* on bit patterns: congruence is bit equality */
+uint64_t __CPROVER_uninterpreted_sin(uint64_t);
 double cos(double x)
 __CPROVER_requires(1)
 __CPROVER_assigns()
-__CPROVER_ensures(vf_dbits(__CPROVER_return_value) == vf_dbits(__CPROVER_uninterpreted_cos(x)))
+__CPROVER_ensures(vf_dbits(__CPROVER_return_value) == __CPROVER_uninterpreted_cos(vf_dbits(x)))
 ;
 double sin(double x)
 __CPROVER_requires(1)
 __CPROVER_assigns()
-__CPROVER_ensures(vf_dbits(__CPROVER_return_value) == vf_dbits(__CPROVER_uninterpreted_sin(x)))
+__CPROVER_ensures(vf_dbits(__CPROVER_return_value) == __CPROVER_uninterpreted_sin(vf_dbits(x)))
 ;
 #endif
